@@ -162,10 +162,11 @@ def main(argv):
     finally:
         shutil.rmtree(scratch, ignore_errors=True)
     # required behavioural counters (non-triviality)
-    for name in meta.get('require_counters', {}).get(tier, meta.get('require_counters', {}).get('any', [])):
+    # (a replay re-runs one witness shard only: the non-triviality requirements of a full run do not apply)
+    for name in ([] if replay else meta.get('require_counters', {}).get(tier, meta.get('require_counters', {}).get('any', []))):
         if not problems and counters.get(name, 0) <= 0:
             problems.append('inconclusive: required counter %s stayed at zero' % name)
-    if not samples and not problems:
+    if not samples and not problems and not replay:
         problems.append('inconclusive: the check recorded no sample case (res.sample)')
     known = load_known(prop)
     new_violations = 0
